@@ -44,12 +44,12 @@ Outcomes(cfg, rq) ==
         real  == Cands(RealTargets(cfg), rq.method, b)
         synth == Cands(SynthTargets(cfg), rq.method, b)
         all   == NonDominated(real \cup synth)
-        onlyReal == IF real = {} THEN {NotFoundT} ELSE NonDominated(real)
-    IN IF cfg.api.cors
-       THEN (IF real \cup synth = {} THEN {NotFoundT} ELSE all)
-       ELSE \* no CORS handler installed: a preflight for a path without OPTIONS is not found (C17);
-            \* dispatching to a less specific declared OPTIONS operation instead is what C03 alone asks for
-            onlyReal \cup (IF \E s \in synth : s \in all THEN {NotFoundT} ELSE {})
+    IN \* with CORS enabled every path item without an OPTIONS operation has a preflight operation that
+       \* competes like any other (C17: a declared OPTIONS operation is never shadowed, a less specific one
+       \* never takes over); without a CORSHandler installed that preflight is "not found"
+       IF real \cup synth = {} THEN {NotFoundT}
+       ELSE IF cfg.api.cors THEN all
+       ELSE { IF o.synth THEN NotFoundT ELSE o : o \in all }
 
 OpById(cfg, id) == CHOOSE o \in OpsOf(cfg) : o.id = id
 EffOf(cfg, o)   == Effective(cfg.global, o.sec)
